@@ -24,7 +24,10 @@ type spec struct {
 	Gated   bool // the subscriber starts emitting only after Running() (else immediately)
 	// Ends: the handler's subscription ends before / while Close is called: "stop" = Handler.Stop() runs concurrently
 	// with the closers, "subends" = the subscriber closes its channel right after handing out its last message
-	Ends    string
+	Ends string
+	// Early: the router has two handlers and the Close calls arrive while it is still subscribing them (inside the first
+	// Subscribe call of Run\'s start-up)
+	Early   bool
 	C       int
 	DPORSec float64
 }
@@ -37,13 +40,16 @@ func (s spec) name() string {
 	if s.Ends != "" {
 		g += "/" + s.Ends
 	}
+	if s.Early {
+		g += "/close-during-startup"
+	}
 	return fmt.Sprintf("script/%s/N%d/closers%d%s", s.Handler, s.N, s.Closers, g)
 }
 
 const closeTimeout = 30 * time.Second
 
 func scenario(sp spec) *explore.Scenario {
-	return &explore.Scenario{Name: sp.name(), C: sp.C,
+	return &explore.Scenario{Name: sp.name(), C: sp.C, DataOnly: sp.C < 0,
 		Body:  func() { body(sp) },
 		Check: func(r *vs.Result) []vs.Failure { return checkLog(sp, r.Obs) },
 	}
@@ -98,6 +104,49 @@ func body(sp spec) {
 		}
 		return hx.Outputs(m, 1), nil
 	})
+	var wg vs.WaitGroup
+	startClosers := func() {
+		if sp.Ends == "stop" {
+			wg.Add(1)
+			go func() {
+				defer wg.Done()
+				hnd.Stop()
+			}()
+		}
+		for i := 0; i < sp.Closers; i++ {
+			i := i
+			wg.Add(1)
+			go func() {
+				defer wg.Done()
+				err := r.Close()
+				// settlement of everything the subscriber handed out, read through visible polls
+				st := ""
+				for _, d := range sub.Snapshot() {
+					s := "unsettled"
+					if closedNow(d.Msg.Acked()) {
+						s = "acked"
+					} else if closedNow(d.Msg.Nacked()) {
+						s = "nacked"
+					}
+					st += d.UUID + "=" + s + ","
+				}
+				e := "nil"
+				if err != nil {
+					e = "err"
+				}
+				vs.Observe("close %d %s [%s]", i, e, st)
+			}()
+		}
+	}
+	if sp.Early {
+		r.AddNoPublisherHandler("h2", "in2", sub, func(m *message.Message) error { return nil })
+		sub.OnSubscribe = func(call int) {
+			if call == 0 {
+				startClosers()
+				time.Sleep(time.Millisecond) // a slow Subscribe: the Close calls get as far as they can meanwhile
+			}
+		}
+	}
 	go func() {
 		err := r.Run(context.Background())
 		vs.Observe("run %v", err)
@@ -106,37 +155,8 @@ func body(sp spec) {
 	if sp.Gated {
 		sub.Open()
 	}
-	var wg vs.WaitGroup
-	if sp.Ends == "stop" {
-		wg.Add(1)
-		go func() {
-			defer wg.Done()
-			hnd.Stop()
-		}()
-	}
-	for i := 0; i < sp.Closers; i++ {
-		i := i
-		wg.Add(1)
-		go func() {
-			defer wg.Done()
-			err := r.Close()
-			// settlement of everything the subscriber handed out, read through visible polls
-			st := ""
-			for _, d := range sub.Snapshot() {
-				s := "unsettled"
-				if closedNow(d.Msg.Acked()) {
-					s = "acked"
-				} else if closedNow(d.Msg.Nacked()) {
-					s = "nacked"
-				}
-				st += d.UUID + "=" + s + ","
-			}
-			e := "nil"
-			if err != nil {
-				e = "err"
-			}
-			vs.Observe("close %d %s [%s]", i, e, st)
-		}()
+	if !sp.Early {
+		startClosers()
 	}
 	wg.Wait() // hang = a Close call that never returns
 	vs.Quiesce()
@@ -330,6 +350,10 @@ func init() {
 		add(reg.Thorough, 40, spec{Handler: h, N: 2, Closers: 1, C: 1}, 2, 0)
 	}
 	add(reg.Quick, 10, spec{Handler: "yield", N: 1, Closers: 1, Gated: true, C: 1}, 2, 0)
+	// Close arriving inside the start-up (two handlers, a slow first Subscribe): with the start-up concurrent to the Close
+	// calls even the search without preemptions exceeds a million executions, so the quick tier runs the one schedule in
+	// which the Close calls get as far as they can during the slow Subscribe, and the thorough tier the bounded search
+	add(reg.Quick, 1, spec{Handler: "instant", N: 1, Closers: 2, Early: true, C: -1}, 0, 0)
 	// the only handler's subscription ends while its invocation runs: the router then closes itself, and a Close
 	// call that returns nil still means that no invocation is in progress
 	for _, ends := range []string{"stop", "subends"} {
